@@ -95,6 +95,8 @@ type lpRef struct {
 	opt        *big.Rat
 	nBases     int
 	degenerate bool
+	// strict: the feasible bases whose basic solution is strictly positive
+	strict [][]int
 }
 
 func lpReference(c []float64, A [][]float64, b []float64) lpRef {
@@ -149,6 +151,13 @@ func lpReference(c []float64, A [][]float64, b []float64) lpRef {
 			}
 			if feas {
 				ref.feasible = true
+				positive := true
+				for i := 0; i < m; i++ {
+					positive = positive && xb[i][0].Sign() > 0
+				}
+				if positive {
+					ref.strict = append(ref.strict, append([]int(nil), idx...))
+				}
 				cost := new(big.Rat)
 				for i, j := range idx {
 					cost.Add(cost, new(big.Rat).Mul(ratOf(c[j]), xb[i][0]))
@@ -227,7 +236,7 @@ func (m *lpCountingMatrix) T() mat.Matrix { return mat.Transpose{Matrix: m} }
 
 func runLP(t *simrt.Tape, rc *RunCtx) *Violation {
 	const prop = "C19"
-	rc.declare("lp_optimal", "lp_infeasible", "lp_unbounded", "lp_rank_deficient", "lp_degenerate_vertex", "lp_numeric_failure_reported", "lp_convert_checked", "lp_square", "lp_corpus_program")
+	rc.declare("lp_optimal", "lp_infeasible", "lp_unbounded", "lp_rank_deficient", "lp_degenerate_vertex", "lp_numeric_failure_reported", "lp_convert_checked", "lp_square", "lp_corpus_program", "lp_warm_start_series")
 	m := 1 + t.Choose(simrt.KWorkload, 4)
 	n := m + t.Choose(simrt.KWorkload, 8-m)
 	A := make([][]float64, m)
@@ -537,6 +546,85 @@ func runLP(t *simrt.Tape, rc *RunCtx) *Violation {
 		tol := 1e-8 * (1 + math.Abs(want))
 		if math.Abs(optF-want) > tol || math.Abs(cx-optF) > tol {
 			return &Violation{prop, "lp/simplex/not-optimal", fmt.Sprintf("Simplex returned F=%v at X=%v (c.X=%v); the least cost over the %d basic feasible solutions is %v\n%s", optF, optX, cx, ref.nBases, want, where)}
+		}
+	}
+
+	// Warm starts: a caller who knows a feasible basis hands it over as
+	// initialBasic, and keeps handing over the same slice while the right-hand
+	// side changes (b' = A_B y with y > 0 keeps that basis feasible). Every
+	// solve of the series must give the optimum of its program. Programs with
+	// a degenerate vertex are left out (known finding: cycling).
+	if pan == nil && ref.fullRank && ref.feasible && !ref.degenerate && len(ref.strict) > 0 && n > m && t.Choose(simrt.KWorkload, 2) == 1 {
+		given := ref.strict[t.Choose(simrt.KWorkload, len(ref.strict))]
+		if t.Choose(simrt.KWorkload, 2) == 1 {
+			// the order of the indices is the caller's business
+			given = append([]int(nil), given...)
+			for i := len(given) - 1; i > 0; i-- {
+				k := t.Choose(simrt.KWorkload, i+1)
+				given[i], given[k] = given[k], given[i]
+			}
+		}
+		basis := append([]int(nil), given...)
+		rc.probe("lp_warm_start_series", 1)
+		for step := 0; step < 3; step++ {
+			bs, refS := b, ref
+			if step > 0 {
+				bs = make([]float64, m)
+				for _, j := range given {
+					y := float64(1 + t.Choose(simrt.KValue, 4))
+					for i := range bs {
+						bs[i] += A[i][j] * y
+					}
+				}
+				refS = lpReference(c, A, bs)
+				if refS.degenerate {
+					continue
+				}
+			}
+			whereS := fmt.Sprintf("solve %d of a series with initialBasic=%v (handed over as %v)\n%s", step, given, basis, lpShow(c, A, bs))
+			var f float64
+			var x []float64
+			var errS error
+			var panS interface{}
+			func() {
+				defer func() { panS = recover() }()
+				f, x, errS = lp.Simplex(append([]float64(nil), c...), &lpCountingMatrix{d: ad, limit: 300000}, append([]float64(nil), bs...), 1e-10, basis)
+			}()
+			rc.oracle("simplex-warm-start-series")
+			if panS != nil {
+				return &Violation{prop, "lp/simplex/warm-start/panic", fmt.Sprintf("Simplex panicked: %v; the basis %v is feasible with a strictly positive basic solution\n%s", panS, given, whereS)}
+			}
+			if errors.Is(errS, lp.ErrBland) || errors.Is(errS, lp.ErrLinSolve) {
+				rc.probe("lp_numeric_failure_reported", 1)
+				continue
+			}
+			if refS.unbounded {
+				if !errors.Is(errS, lp.ErrUnbounded) {
+					return &Violation{prop, "lp/simplex/warm-start/unbounded-misclassified", fmt.Sprintf("the program is unbounded; Simplex returned F=%v X=%v err=%v\n%s", f, x, errS, whereS)}
+				}
+				continue
+			}
+			want, _ := refS.opt.Float64()
+			if errS != nil || len(x) != n {
+				return &Violation{prop, "lp/simplex/warm-start/optimal-misclassified", fmt.Sprintf("the program has the optimum %v; Simplex returned F=%v X=%v err=%v\n%s", want, f, x, errS, whereS)}
+			}
+			var cx float64
+			ok := true
+			for j := range x {
+				cx += c[j] * x[j]
+				ok = ok && x[j] >= -1e-9
+			}
+			for i := range A {
+				var r float64
+				for j := range x {
+					r += A[i][j] * x[j]
+				}
+				ok = ok && math.Abs(r-bs[i]) <= 1e-8*(1+math.Abs(bs[i]))
+			}
+			tol := 1e-8 * (1 + math.Abs(want))
+			if !ok || math.Abs(f-want) > tol || math.Abs(cx-f) > tol {
+				return &Violation{prop, "lp/simplex/warm-start/not-optimal", fmt.Sprintf("Simplex returned F=%v at X=%v (c.X=%v, feasible=%v); the optimum is %v\n%s", f, x, cx, ok, want, whereS)}
+			}
 		}
 	}
 
